@@ -3,7 +3,7 @@
 # (scratch copies of /repo's HEAD, /repo untouched); every line must be [exit 0]
 HERE="$(cd "$(dirname "$0")/.." && pwd)"; cd "$HERE" || exit 3
 ids_for() {
-  case "$1" in
+  case "${1%b}" in
     B1) echo "C04 C01 C03 C06 C08 C16 C17 C19 C15" ;;
     B2) echo "C05 C06 C02 C03 C16 C17 C19 C13 C18 C15" ;;
     B3) echo "C05 C07 C02 C03 C06 C08 C16 C17 C19 C13 C18 C15" ;;
